@@ -8,6 +8,11 @@
 // fail, restart the client). Synchronisation with the concurrent client is by COUNTS (channel drained, then two
 // further FinalisedHeight answers); wall-clock guards only ever make a case inconclusive.
 //
+// The same script runs in two modes. In the interface mode the model node implements l1.L1StateProvider itself.
+// In the geth mode (geth_test.go) the model node is served as an Ethereum JSON-RPC endpoint over a websocket
+// (in-process go-ethereum rpc.Server) and the client talks to it through the REAL l1.GethL1StateProvider
+// (ethclient + abigen filterer + forwardStateUpdates), as the node does in production.
+//
 // Oracles (schedule independent):
 //   - at every OnNewL1Head callback, every value seen on the L1-head feed and every sampled Blockchain.L1Head():
 //     the head is an event the L1 node delivered, not on a reorged-out block, at an L1 height <= the largest
@@ -23,6 +28,7 @@ import (
 	"fmt"
 	"math"
 	"os"
+	"runtime"
 	"strings"
 	"sync"
 	"sync/atomic"
@@ -60,6 +66,8 @@ type event struct {
 	l1, l2 uint64
 	hash   felt.Felt
 	root   felt.Felt
+
+	blockID, idx int // identity of its Ethereum block and its position in it (geth mode: block hash, log index)
 
 	orphaned bool // its Ethereum block was reorged out
 	notified bool // the Removed copy was handed to the client
@@ -148,6 +156,7 @@ type harness struct {
 	mu sync.Mutex
 	// model L1 chain
 	blocks []*l1block // canonical chain, index = L1 height
+	mined  int        // blocks ever mined (including orphaned ones)
 	fin    uint64
 	l2base uint64
 	all    []*event
@@ -185,6 +194,13 @@ type harness struct {
 	cur     *running
 	obsStop chan struct{}
 	obsWG   sync.WaitGroup
+
+	// geth mode (geth_test.go): the model node is reached through the real GethL1StateProvider
+	viaGeth    bool
+	node       *fakeNode // JSON-RPC front of the current client instance
+	markerSent int       // test goroutine only
+	markerSeen int       // highest stream marker that has come out of the adapter (mu)
+	tapCur     *tapSub   // the current subscription as seen by the client (mu)
 }
 
 func (h *harness) logf(f string, a ...any) {
@@ -239,8 +255,9 @@ func (h *harness) mineLocked(n int) []*event {
 	height := uint64(len(h.blocks))
 	b := &l1block{}
 	h.blocks = append(h.blocks, b)
+	h.mined++
 	for i := 0; i < n; i++ {
-		e := &event{id: len(h.all) + 1, l1: height, l2: h.nextL2Locked()}
+		e := &event{id: len(h.all) + 1, l1: height, l2: h.nextL2Locked(), blockID: h.mined, idx: i}
 		e.hash.SetUint64(uint64(e.id))
 		e.root.SetUint64(uint64(e.id) + 1<<32)
 		h.all = append(h.all, e)
@@ -465,6 +482,20 @@ func (p *provider) LatestHeight(context.Context) (uint64, error) {
 }
 
 func (p *provider) FilterStateUpdate(_ context.Context, from, to uint64) ([]*l1.StateUpdate, error) {
+	evs, err := p.filterEvents(from, to, true)
+	if err != nil {
+		return nil, err
+	}
+	var out []*l1.StateUpdate
+	for _, e := range evs {
+		out = append(out, e.update(false))
+	}
+	return out, nil
+}
+
+// filterEvents answers a log query for [from,to]; the events it returns count as delivered to the current
+// instance (match=false: the query asked for another contract/topic, a node returns nothing then).
+func (p *provider) filterEvents(from, to uint64, match bool) ([]*event, error) {
 	h := p.h
 	h.mu.Lock()
 	defer h.mu.Unlock()
@@ -516,12 +547,12 @@ func (p *provider) FilterStateUpdate(_ context.Context, from, to uint64) ([]*l1.
 		return nil, nil
 	}
 	h.prevFrom = from
-	var out []*l1.StateUpdate
-	for n := from; n <= to && n < uint64(len(h.blocks)); n++ {
+	var out []*event
+	for n := from; match && n <= to && n < uint64(len(h.blocks)); n++ {
 		for _, e := range h.blocks[n].evs {
 			h.seq++
 			e.seq, e.gen, e.ever = h.seq, h.gen, true
-			out = append(out, e.update(false))
+			out = append(out, e)
 		}
 	}
 	if idx > 0 {
@@ -531,6 +562,15 @@ func (p *provider) FilterStateUpdate(_ context.Context, from, to uint64) ([]*l1.
 }
 
 func (p *provider) WatchStateUpdate(_ context.Context, ch chan<- *l1.StateUpdate) (l1.Subscription, error) {
+	s, err := p.watch(ch, nil)
+	if err != nil {
+		return nil, err
+	}
+	return s, nil
+}
+
+// watch is the model's answer to a subscription request; onUp runs (mu held) when the subscription is granted.
+func (p *provider) watch(ch chan<- *l1.StateUpdate, onUp func(*subscription)) (*subscription, error) {
 	h := p.h
 	h.mu.Lock()
 	defer h.mu.Unlock()
@@ -538,7 +578,9 @@ func (p *provider) WatchStateUpdate(_ context.Context, ch chan<- *l1.StateUpdate
 	if p.gen != h.gen {
 		return nil, errStale
 	}
-	h.updCh = ch
+	if ch != nil { // geth mode: the client's channel is recorded by the tap (geth_test.go)
+		h.updCh = ch
+	}
 	if h.hold || h.watchFailN > 0 {
 		if !h.hold {
 			h.watchFailN--
@@ -551,6 +593,9 @@ func (p *provider) WatchStateUpdate(_ context.Context, ch chan<- *l1.StateUpdate
 	h.curSub = s
 	h.subUp = true
 	h.watchOK++
+	if onUp != nil {
+		onUp(s)
+	}
 	return s, nil
 }
 
@@ -718,6 +763,7 @@ func (h *harness) syncCheck(where string) {
 	if hold || h.cur == nil {
 		return
 	}
+	h.quiesceStream()
 	h.waitFor("subscription channel drained", func() bool { return len(ch) == 0 })
 	h.mu.Lock()
 	c0 := h.finOK
@@ -762,7 +808,15 @@ func (h *harness) deliver(k int) {
 		}
 		it := h.pending[0]
 		h.pending = h.pending[1:]
-		ch := h.updCh
+		ch, node := h.updCh, h.node
+		if node != nil && !node.subMatch {
+			// the subscription filter does not select the contract's LogStateUpdate logs: nothing is sent
+			if !it.removed {
+				h.flagLocked("missed-events")
+			}
+			h.mu.Unlock()
+			continue
+		}
 		if it.removed {
 			it.ev.notified = true
 			h.flagLocked("nt:removal-of-buffered")
@@ -773,7 +827,14 @@ func (h *harness) deliver(k int) {
 				h.flagLocked("late-delivery")
 			}
 		}
+		if node != nil && it.removed {
+			h.flagLocked("geth-removed-log")
+		}
 		h.mu.Unlock()
+		if node != nil {
+			node.notify(logOf(it.ev, it.removed))
+			continue
+		}
 		select {
 		case ch <- it.ev.update(it.removed):
 		default:
@@ -806,7 +867,7 @@ var (
 	genEvents = rapid.SampledFrom([]int{0, 0, 0, 1, 1, 1, 1, 2, 2, 3})
 	// replacement blocks of a reorg: more often empty, so that what the client kept of the old fork is not simply overwritten
 	genReorgEvents = rapid.SampledFrom([]int{0, 0, 0, 0, 1, 1, 2, 3})
-	genChunk  = rapid.SampledFrom([]uint64{1, 1, 2, 2, 3, 5, 8, 50})
+	genChunk       = rapid.SampledFrom([]uint64{1, 1, 2, 2, 3, 5, 8, 50})
 )
 
 func (h *harness) drawPlan(label string) plan {
@@ -838,6 +899,7 @@ func (h *harness) drawPlan(label string) plan {
 func (h *harness) newInstance(p plan, newBC, run bool) *l1.Client {
 	h.stopClient()
 	h.stopObservers()
+	h.closeNode()
 	h.raise()
 	if newBC {
 		h.bc = blockchain.New(h.db, &networks.Sepolia)
@@ -864,9 +926,15 @@ func (h *harness) newInstance(p plan, newBC, run bool) *l1.Client {
 	h.filterCalls, h.injected, h.latestGiven, h.prevFrom = 0, 0, 0, 0
 	h.finOK, h.watchOK, h.watchFail = 0, 0, 0
 	gen := h.gen
+	h.markerSeen, h.tapCur = 0, nil
 	h.mu.Unlock()
+	h.markerSent = 0
 	h.startObservers()
-	return l1.NewClient(&provider{h: h, gen: gen}, h.bc, log.NewNopZapLogger(),
+	var prov l1.L1StateProvider = &provider{h: h, gen: gen}
+	if h.viaGeth {
+		prov = h.startNode(&provider{h: h, gen: gen})
+	}
+	return l1.NewClient(prov, h.bc, log.NewNopZapLogger(),
 		l1.WithEventListener(l1.SelectiveListener{OnNewL1HeadCb: h.onNewL1Head}),
 		l1.WithResubscribeDelay(time.Millisecond),
 		l1.WithPollFinalisedInterval(time.Millisecond),
@@ -1015,6 +1083,9 @@ func (h *harness) step() {
 		hold := rapid.Bool().Draw(rt, "hold")
 		failN := rapid.IntRange(0, 2).Draw(rt, "resubFail")
 		miss := rapid.Bool().Draw(rt, "missWhileDown")
+		// geth mode: everything the node has sent must have left the adapter before the connection is cut,
+		// otherwise "delivered" would be ambiguous for the notifications still in flight
+		h.quiesceStream()
 		h.mu.Lock()
 		s := h.curSub
 		h.subUp, h.hold, h.watchFailN, h.missMode = false, hold, failN, miss
@@ -1025,10 +1096,14 @@ func (h *harness) step() {
 		h.mu.Unlock()
 		h.logf("subscription fails (node stays unreachable=%v, logs mined meanwhile are missed=%v, next %d resubscriptions fail)", hold, miss, failN)
 		h.c.Label("sub-error")
-		select {
-		case s.errCh <- errInjected:
-		default:
-			stats.HarnessError("c17: subscription error channel full")
+		if h.node != nil {
+			h.node.dropConnections() // a node cannot end a subscription in any other way
+		} else {
+			select {
+			case s.errCh <- errInjected:
+			default:
+				stats.HarnessError("c17: subscription error channel full")
+			}
 		}
 		if hold {
 			h.waitFor("a failed resubscription", func() bool { return h.watchFail > f0 })
@@ -1067,10 +1142,13 @@ func (h *harness) step() {
 	}
 }
 
-func runScript(rt *rapid.T, c *stats.Case) {
+func runScript(rt *rapid.T, c *stats.Case) { runScriptMode(rt, c, false) }
+
+func runScriptMode(rt *rapid.T, c *stats.Case, viaGeth bool) {
 	h := &harness{rt: rt, c: c, db: memory.New(), byHash: map[felt.Felt]*event{}, flags: map[string]bool{},
-		note: make(chan struct{}, 1), unsyncedRemovalMin: math.MaxUint64}
+		note: make(chan struct{}, 1), unsyncedRemovalMin: math.MaxUint64, viaGeth: viaGeth}
 	h.bc = blockchain.New(h.db, &networks.Sepolia)
+	goroutines, completed := runtime.NumGoroutine(), false
 	defer func() {
 		if h.cur != nil {
 			h.cur.cancel()
@@ -1080,6 +1158,10 @@ func runScript(rt *rapid.T, c *stats.Case) {
 			}
 		}
 		h.stopObservers()
+		h.closeNode()
+		if completed { // (a failing case unwinds through here too: its verdict must not be replaced)
+			awaitGoroutines(goroutines)
+		}
 	}()
 
 	// initial L1 chain: nothing of it has been delivered to anybody
@@ -1143,6 +1225,7 @@ func runScript(rt *rapid.T, c *stats.Case) {
 	before, beforeSet := h.readHead(h.bc, srcStep)
 	h.stopClient()
 	h.stopObservers()
+	h.closeNode()
 	// the head is in the database, not in the Blockchain object
 	after, afterSet := h.readHead(blockchain.New(h.db, &networks.Sepolia), srcStep)
 	h.raise()
@@ -1166,6 +1249,7 @@ func runScript(rt *rapid.T, c *stats.Case) {
 	h.mu.Unlock()
 	script := append([]string(nil), h.script...)
 	c.Sample(func() any { return script })
+	completed = true
 }
 
 const rule = "rapid-drawn script against the real l1.Client + real Blockchain(memory DB): model L1 chain (blocks with 0-3 LogStateUpdate events, " +
